@@ -38,8 +38,8 @@ Definition breaks_rename (w : world) (src : res) (newn : N) (m : pymod) : bool :
   let w2 := map_world (rename_res src newn) w in
   breaks (map (resolve_ref w m) (m_refs m)) (map (resolve_ref w2 m') (m_refs m')) (move_obj (rename_res src newn)).
 
-(* the code once both MoveModule repairs are in *)
-Definition repaired : variant := {| v_relctx := true; v_rootfrom := true; v_case3abs := false |}.
+(* the code as it is now: the three MoveModule repairs 9f7c670, 4ab2467, 0b4a7b3 are in *)
+Definition repaired : variant := {| v_relctx := true; v_rootfrom := true; v_case3abs := true |}.
 
 (* project: packages a (with global g), c ; modules a/b.py {f}, a/t.py {f} *)
 Definition w1 : world :=
